@@ -1450,7 +1450,7 @@ def xsd_schema_check(file_path, directory_file, xsd_file):
 def test_for_missing_files(not_found_paths, root_path, ignore_spec: MHLIgnoreSpec = MHLIgnoreSpec()):
     ignore_path_spec = ignore_spec.get_path_spec()
     # update to exclude our ignored files
-    not_found_paths = [x for x in not_found_paths if not ignore_path_spec.match_file(x)]
+    not_found_paths = [x for x in not_found_paths if not ignore_path_spec.match_file(os.path.relpath(x, root_path))]
     if len(not_found_paths) == 0:
         return None
     # test our not_found_paths against our ignore spec to ensure these weren't explicitly ignored.
